@@ -1069,3 +1069,17 @@ R.mutant("benign-collector-version-col-renamed-val-inlined", PERS,
          chain(sub("            col = mapper.version_id_col\n            no_params = not params and not value_params\n            params[col._label] = update_version_id\n\n            if (\n                bulk or col.key not in params\n            ) and mapper.version_id_generator is not False:\n                val = mapper.version_id_generator(update_version_id)\n                params[col.key] = val\n",
                    "            version_col = mapper.version_id_col\n            no_params = not params and not value_params\n            params[version_col._label] = update_version_id\n\n            if (\n                bulk or version_col.key not in params\n            ) and mapper.version_id_generator is not False:\n                params[version_col.key] = mapper.version_id_generator(\n                    update_version_id\n                )\n"),
                sub("                # statement\n                params[col.key] = update_version_id\n", "                # statement\n                params[version_col.key] = update_version_id\n")), None)
+
+# (d) the check / warn tail of the two UPDATE emitters in other control-flow shapes
+_TAIL = ("        if check_rowcount:\n" + _CHK + "\n        elif needs_version_id:\n            util.warn(\n                \"Dialect %s does not support updated rowcount \"\n                \"- versioning cannot be verified.\"\n"
+         "                % c.dialect.dialect_description\n            )\n")
+_WARN = "util.warn(\n                    \"Dialect %s does not support updated rowcount \"\n                    \"- versioning cannot be verified.\"\n                    % c.dialect.dialect_description\n                )\n"
+R.mutant("benign-check-tail-guard-clause", PERS,
+         sub(_TAIL, "        if not check_rowcount:\n            if needs_version_id:\n                " + _WARN + "            continue\n\n        expected_rows = len(records)\n        if rows != expected_rows:\n"
+                    "            raise orm_exc.StaleDataError(\n                \"UPDATE statement on table '%s' expected to \"\n                \"update %d row(s); %d were matched.\"\n                % (table.description, expected_rows, rows)\n            )\n", count=2), None)
+R.mutant("benign-check-tail-merged-condition", PERS,
+         sub(_TAIL, "        stale = check_rowcount and rows != len(records)\n        if stale:\n            raise orm_exc.StaleDataError(\n                \"UPDATE statement on table '%s' expected to \"\n                \"update %d row(s); %d were matched.\"\n"
+                    "                % (table.description, len(records), rows)\n            )\n        if needs_version_id and not check_rowcount:\n            " + _WARN.replace("                    ", "                ").replace("                )", "            )"), count=2), None)
+R.mutant("check-tail-guard-clause-skips-check-for-versioned", PERS,
+         sub(_TAIL, "        if not check_rowcount or needs_version_id:\n            continue\n\n        if rows != len(records):\n"
+                    "            raise orm_exc.StaleDataError(\n                \"UPDATE statement on table '%s' expected to \"\n                \"update %d row(s); %d were matched.\"\n                % (table.description, len(records), rows)\n            )\n", count=2), ("C44-R2", "C44-R6"))
